@@ -409,7 +409,7 @@ func init() {
 	// be held before they take the handler's lock
 	fam("bus07", 200, 6000, func(rng *rand.Rand) busKnobs {
 		return busKnobs{threads: 1 + rng.Intn(3), ntypes: 1 + rng.Intn(2), async: true, wAsync: 60, seq: true, wSeq: 80,
-			obs: b2(rng), panics: rng.Intn(4) == 0, actsPerThread: 5}
+			obs: b2(rng), panics: rng.Intn(4) == 0, viaAny: true, actsPerThread: 5}
 	})
 	// C08: cancellation at every point, context-aware handlers, all hook subsets
 	fam("bus08", 200, 6000, func(rng *rand.Rand) busKnobs {
@@ -419,11 +419,11 @@ func init() {
 	// C09 / C13: persistent bus, every order of options, concurrent publishers, persistence faults
 	fam("bus09", 200, 6000, func(rng *rand.Rand) busKnobs {
 		return busKnobs{threads: 1 + rng.Intn(3), ntypes: 1 + rng.Intn(3), async: rng.Intn(3) == 0, store: true, hooks: true,
-			obs: rng.Intn(3) == 0, panics: rng.Intn(4) == 0, actsPerThread: 5}
+			obs: rng.Intn(3) == 0, panics: rng.Intn(4) == 0, ctx: rng.Intn(3) == 0, wCtxPub: 50, actsPerThread: 5}
 	})
 	fam("bus13", 200, 6000, func(rng *rand.Rand) busKnobs {
 		return busKnobs{threads: 1 + rng.Intn(2), ntypes: 1 + rng.Intn(3), async: rng.Intn(3) == 0, store: true, pfaults: true,
-			hooks: rng.Intn(3) == 0, obs: rng.Intn(3) == 0, actsPerThread: 7}
+			hooks: rng.Intn(3) == 0, obs: rng.Intn(3) == 0, ctx: rng.Intn(3) == 0, wCtxPub: 50, actsPerThread: 7}
 	})
 	// C20: observability on, everything else mixed
 	fam("bus20", 200, 6000, func(rng *rand.Rand) busKnobs {
